@@ -28,3 +28,16 @@ package sliceu
 //@   ensures len(result) == len(idxList) && forall(0, len(idxList), func(j int) bool { return result[j] == s[idxList[j]] })
 //@   loop 0:
 //@     invariant len(ret) == idx_ && forall(0, idx_, func(j int) bool { return ret[j] == s[idxList[j]] })
+
+// Partition deals the elements round robin: group k holds the elements at positions k, k+n,
+// k+2n, ... (n = groupCount) in order - every element in exactly one group.
+//@ func Partition
+//@   property C16
+//@   panics when groupCount < 1
+//@   ensures len(result) == groupCount
+//@   ensures forall(0, groupCount, func(k int) bool { return forall(0, len(result[k]), func(p int) bool { return p*groupCount+k < len(slice) && result[k][p] == slice[p*groupCount+k] }) })
+//@   ensures forall(0, len(slice), func(i int) bool { return i/groupCount < len(result[i%groupCount]) })
+//@   loop 0:
+//@     invariant len(groups) == groupCount && maxGroupIndex == groupCount-1 && 0 <= groupIndex && groupIndex < groupCount && groupIndex == idx_%groupCount
+//@     invariant forall(0, groupCount, func(k int) bool { return len(groups[k]) == idx_/groupCount + ite(k < idx_%groupCount, 1, 0) })
+//@     invariant forall(0, groupCount, func(k int) bool { return forall(0, len(groups[k]), func(p int) bool { return p*groupCount+k < idx_ && groups[k][p] == slice[p*groupCount+k] }) })
